@@ -72,7 +72,7 @@ def float_model_spec(rnd, allow=("sep", "gru", "bidir", "leaky", "gap")):
       elif t == "dw":
         add("DepthwiseConv2D", "dw", {"kernel_size": [rnd.randint(1, 2)] * 2, "padding": "same", "activation": act, "use_bias": ub})
       elif t == "bn":
-        add("BatchNormalization", "bn", {})
+        add("BatchNormalization", "bn", rnd.choice([{}, {}, {}, {"center": False, "scale": False}, {"scale": False}]))
       elif t == "act":
         add("Activation", "act", {"activation": rnd.choice(["relu", "tanh", "sigmoid", "linear"])})
       elif t == "relu":
@@ -139,7 +139,7 @@ def float_model_spec(rnd, allow=("sep", "gru", "bidir", "leaky", "gap")):
       elif t == "act":
         add("Activation", "act", {"activation": rnd.choice(["relu", "tanh", "softmax"])})
       elif t == "bn":
-        add("BatchNormalization", "bn", {})
+        add("BatchNormalization", "bn", rnd.choice([{}, {}, {}, {"center": False, "scale": False}, {"scale": False}]))
       elif t == "relu":
         add("ReLU", "relu", {})
       elif t == "leaky":
@@ -148,6 +148,9 @@ def float_model_spec(rnd, allow=("sep", "gru", "bidir", "leaky", "gap")):
         add("Dropout", "drop", {"rate": 0.25})
   if not layers:
     add("Activation", "act", {"activation": "relu"})
+  for l in layers:     # some weight-owning layers are frozen after the model is built
+    if l["t"] in ("Dense", "Conv1D", "Conv2D", "DepthwiseConv2D", "BatchNormalization", "SimpleRNN", "LSTM") and rnd.random() < 0.12:
+      l["frozen"] = True
   return {"input": shape, "layers": layers}
 
 
@@ -229,6 +232,8 @@ def build(spec, qkeras_mod=None):
       layer = getattr(L, t)(name=l["name"], **kw)
     ins = [get(i) for i in l["in"]]
     nodes.append(layer(ins if len(ins) > 1 else ins[0]))
+    if l.get("frozen"):
+      layer.trainable = False       # frozen after construction: owns weights, none of them trainable
   return tf.keras.Model(inp, nodes[-1])
 
 
@@ -376,6 +381,9 @@ def q_model_spec(rnd, kinds_filter=None, min_layers=2, max_layers=5):
   if not layers:
     add("QActivation", "qact", {"activation": Qd("quantized_relu", bits=4, integer=1)})
   layers[0]["in"] = [-1]
+  for l in layers:
+    if l["t"] in ("QDense", "QConv1D", "QConv2D", "QDepthwiseConv2D", "QBatchNormalization", "QSimpleRNN", "QLSTM") and rnd.random() < 0.12:
+      l["frozen"] = True
   return {"input": shape, "layers": layers}
 
 
@@ -412,4 +420,6 @@ def build_q(spec):
       layer = getattr(L, t)(name=l["name"], **kw)
     ins = [inp if i == -1 else nodes[i] for i in l["in"]]
     nodes.append(layer(ins if len(ins) > 1 else ins[0]))
+    if l.get("frozen"):
+      layer.trainable = False
   return tf.keras.Model(inp, nodes[-1])
